@@ -265,6 +265,10 @@ pub enum Step {
         br: BrSpec,
         max: usize,
         stop_at: Option<u64>,
+        /// the termination condition fires at poll `stop_at` only (not from then on) and the SAME
+        /// iterator is asked again after it reported Unknown
+        #[serde(default)]
+        resume: bool,
     },
     Optimise {
         br: BrSpec,
@@ -292,6 +296,8 @@ pub struct Budget {
     pub stop_at: Option<u64>,
     pub cap: u64,
     pub capped: bool,
+    /// fire at poll `stop_at` only, instead of from poll `stop_at` on
+    pub one_shot: bool,
 }
 
 impl Budget {
@@ -301,6 +307,7 @@ impl Budget {
             stop_at,
             cap,
             capped: false,
+            one_shot: false,
         }
     }
 }
@@ -312,6 +319,9 @@ impl TerminationCondition for Budget {
         if k >= self.cap {
             self.capped = true;
             return true;
+        }
+        if self.one_shot {
+            return self.stop_at == Some(k);
         }
         matches!(self.stop_at, Some(s) if k >= s)
     }
@@ -702,10 +712,12 @@ fn run_step(run: &mut Run, step: &Step) -> bool {
             ret(run, "assume", res, sol.as_ref(), &budget);
             true
         }
-        Step::Iterate { br, max, stop_at } => {
+        Step::Iterate { br, max, stop_at, resume } => {
             ext(json!({"e":"Call","api":"iterate","assum":[],"br":br,"stop_at":stop_json(stop_at),"max":max}));
             let vars = run.user_vars();
             let mut budget = Budget::new(*stop_at, run.poll_cap);
+            budget.one_shot = *resume;
+            let mut resumed = false;
             let nvars = run.nvars;
             let r = guarded("iterate", || {
                 let mut brancher = make_brancher(br, &run.solver, &vars);
@@ -734,6 +746,10 @@ fn run_step(run: &mut Run, step: &Step) -> bool {
                         }
                         IteratedSolution::Unknown => {
                             ext(json!({"e":"IterEnd","kind":"UNKNOWN","n":n}));
+                            if *resume && !resumed {
+                                resumed = true;
+                                continue;
+                            }
                             break;
                         }
                     }
